@@ -3,16 +3,34 @@ import itertools
 import numpy as np
 from vf import core
 from vf.ref import defs, names
+from vf.gen import c08_alias
 from .common import chunks
 
 RULE = ("exhaustive over ordered pairs of temperature units (6 base spellings + delta units + SI-prefixed K/degC/delta_degC: quick m,k; "
         "thorough all prefixes) x additive forms {+,-,np.add,np.subtract,in-place,out=} x 6 readings, judged by affine arithmetic in "
-        "kelvin (points via the affine map, differences via the scale); conversions among all of them against the exact affine map; "
+        "kelvin (points via the affine map, differences via the scale); the same pairs x {+,-} x aliasing call forms (out= being the left "
+        "operand, the right operand, a fresh buffer of matching/other dtype, shape or label, a bare ndarray; in-place operators on whole "
+        "arrays, views, 0-d arrays and with scalar quantities; both operands being identical/reversed/overlapping/strided views of one "
+        "buffer; the same object twice) x operand dtype pairs (float64, float32, int64, int32 mixed) x reading triples: one evaluation "
+        "per object that holds the result (the returned object and, separately, the out= buffer), judged by the same affine reference "
+        "on the readings the operands held before the call; a mandated refusal must also leave the target's numbers untouched; "
+        "conversions among all of them against the exact affine map; "
         "multiplicative/power/reduction set on every offset-scale unit must raise; diff/ediff1d/ptp/gradient per unit. "
-        "distinct = (operation form, unit1, unit2) tuples")
+        "distinct = (operation form, [judged object,] unit1, unit2) tuples")
 ASSUMPTIONS = ("vf/ref/defs.py affine parameters (degC: K = v + 273.15; degF: K = 5/9 (v + 459.67); prefixed degC keep the zero point)",
-               "point+point, difference-point and comparisons are not in the statement: recorded, not judged")
-MIN_EVALS = 2000
+               "point+point, difference-point and comparisons are not in the statement: recorded, not judged",
+               "aliasing forms: the out= buffer is judged with the unit it carries after the call; a bare ndarray handed as out= carries no label "
+               "and its numbers are read with the unit of the object the call returned",
+               "aliasing forms: the bound is 16 ulp of the narrowest float format among the operands (integers count as the float of their width, "
+               "the type unyt/C17 gives them) and the out= buffer, on the sum of the magnitudes of the two rescaled readings; float32 cases whose "
+               "factors or terms leave [1e-30, 1e30] are discarded and counted (IEEE range, same decision as for conversions)",
+               "aliasing forms: 'two different offset scales ... raises instead of returning a number' also covers the number delivered through out=: "
+               "after a mandated refusal the target must hold its old numbers (a dtype relabel with equal numbers is accepted); for refusals the "
+               "statement does not mandate a changed target is a note",
+               "aliasing forms: an operand that is not the target and changes during the call is C18's subject: note, not judged",
+               "an integer out= buffer is turned into the float of its width by unyt before the ufunc runs (library idiom); a call that cannot do so "
+               "(non-owning integer view) refuses, which the statement allows")
+MIN_EVALS = 4000
 TIMEOUT = 900
 READINGS = [0.0, 10.0, -40.0, 36.6, 451.0, -273.15, 0.5]
 
@@ -47,6 +65,9 @@ def batches(tier, seed):
     nrand = 8 if tier == "quick" else 40
     b = [("additive/%d" % i, ("additive", (c, seed, nrand))) for i, c in enumerate(chunks(pairs, 16))]
     b += [("convert/%d" % i, ("convert", c)) for i, c in enumerate(chunks(pairs, 16))]
+    # aliasing call forms: a chunk is a list of ordered pairs; more, smaller chunks in the thorough tier (each pair is ~40 forms x dtypes)
+    nal = 16 if tier == "quick" else 96
+    b += [("alias/%d" % i, ("alias", (c, seed, 1 if tier == "quick" else 2, c08_alias.DTPAIRS[tier]))) for i, c in enumerate(chunks(pairs, nal))]
     b += [("mustraise", ("mustraise", [u for u in us if kind(u) == "point"])), ("reductions", ("reductions", us))]
     return b
 
@@ -75,6 +96,133 @@ def expected(u1, u2, x, y, op, U):
     else:
         val = K / aU
     return val, sem, tol(a1 * x / aU, a2 * y / aU, b1 / aU, b2 / aU, bU / aU)
+
+
+EPS = {"f8": 2.3e-16, "f4": 1.2e-7, "f2": 9.8e-4}
+
+
+def expected_alias(u1, u2, x, y, op, U, eps):
+    """vectorised `expected` for the aliasing forms: x, y float64 arrays of the readings the operands held before the call.
+    The zero points are combined first (they are the same float for one scale family, so they cancel exactly and do not
+    drown readings written with a small prefix); the bound follows the narrowest float format that took part.
+    Returns (values, semantics, bound, magnitudes that must fit the float format) or None when not judged."""
+    k1, k2 = kind(u1), kind(u2)
+    a1, b1 = aff(u1); a2, b2 = aff(u2); aU, bU = aff(U)
+    sgn = 1.0 if op == "+" else -1.0
+    if k1 == "point" and k2 == "diff":
+        B = b1; sem = "point"
+    elif k1 == "diff" and k2 == "point" and op == "+":
+        B = b2; sem = "point"
+    elif k1 == "diff" and k2 == "diff":
+        B = 0.0; sem = "diff"
+    elif k1 == "point" and k2 == "point" and op == "-":
+        B = b1 - b2; sem = "diff"
+    else:
+        return None
+    if sem == "point" and bU != 0.0:
+        B = B - bU
+    t1 = np.asarray(x, dtype="f8") * a1 / aU
+    t2 = np.asarray(y, dtype="f8") * a2 / aU
+    val = t1 + sgn * t2 + B / aU
+    bound = 16 * eps * (np.abs(t1) + np.abs(t2) + abs(B / aU)) + 1e-300
+    mags = [a1 / a2, a2 / a1, a1 / aU, a2 / aU, t1, t2, np.asarray(x) * a1 / a2, np.asarray(y) * a2 / a1, val]
+    return val, sem, bound, mags
+
+
+def _fits(mags, lo, hi):
+    for m in mags:
+        m = np.abs(np.asarray(m, dtype="f8")).ravel()
+        m = m[m != 0]
+        if m.size and (not np.all(np.isfinite(m)) or m.min() < lo or m.max() > hi):
+            return False
+    return True
+
+
+def _vals(o):
+    """float64 copy of the numbers an object holds now (its unit is read separately)"""
+    return np.array(np.asarray(o.d if hasattr(o, "units") else o), dtype="f8")
+
+
+def _same(p, q):
+    return p.shape == q.shape and bool(np.all((p == q) | (np.isnan(p) & np.isnan(q))))
+
+
+def judge_alias(rec, form, op, u1, u2, da, db, plan):
+    """run one aliasing plan and judge the returned object and the out= buffer"""
+    a, b, out, call, xe, ye = plan
+    k1, k2 = kind(u1), kind(u2)
+    key_f = f"{fam(u1)}{op}{fam(u2)}"
+    case = {"u1": u1, "u2": u2, "x": np.asarray(xe).tolist(), "y": np.asarray(ye).tolist(), "op": op, "form": form, "dtypes": [da, db]}
+    out_before = None if out is None else _vals(out)
+    bystanders = [(nm, o, _vals(o), str(o.units)) for nm, o in (("left", a), ("right", b)) if out is None or (o is not out and not np.shares_memory(o, out))]
+    floats = [c08_alias.fl(da), c08_alias.fl(db)] + ([c08_alias.fl(out.dtype)] if out is not None else [])
+    # structural cell of its own: an integer target whose memory the *other* operand object also views (unyt turns an integer
+    # target into floats in place before the ufunc reads its operands); keyed by form only, the unit pair plays no part in it
+    int_target_viewed = out is not None and out.dtype.kind in "iu" and any(o is not out and np.shares_memory(o, out) for o in (a, b))
+    eps = max(EPS[f] for f in floats)
+    try:
+        r = call(); raised = None
+    except Exception as e:
+        r = None; raised = type(e).__name__
+    two_offset_scales = k1 == "point" and k2 == "point" and aff(u1) != aff(u2)
+    if raised is not None:
+        intact = out is None or _same(out_before, _vals(out))
+        if two_offset_scales:
+            if not intact:
+                rec.violation(f"C08:alias:written-before-refusal:{form}:{key_f}", f"{u1}{op}{u2} ({form}, {da},{db}) raised {raised} but the target holds {_vals(out).tolist()} instead of {out_before.tolist()}", case)
+            else:
+                rec.ok(("alias-refused-2offset", form, u1, op, u2))
+                if out is not None:
+                    rec.count("alias:refusal-target-intact")
+        else:
+            rec.note(f"alias-refused:{k1}{op}{k2}")
+            if not intact:
+                rec.note(f"alias-refused-but-target-changed:{form}:{k1}{op}{k2}")
+            rec.ok(("alias-refusal", form, u1, op, u2))
+        return
+    if two_offset_scales:
+        rec.violation(f"C08:alias:two-offset-scales-combined:{form}:{key_f}", f"{u1}{op}{u2} ({form}, {da},{db}) returned {r!r}; two different offset scales must be refused", case)
+        return
+    if not hasattr(r, "units"):
+        rec.violation(f"C08:alias:result-without-unit:{form}:{key_f}", f"{u1}{op}{u2} ({form}) returned bare {r!r}", case)
+        return
+    subjects = [("returned", r, r.units)]
+    if out is not None and out is not r:
+        # a bare ndarray carries no label: its numbers are read with the unit of the object the call returned
+        subjects.append(("out-buffer", out, out.units if hasattr(out, "units") else r.units))
+    judged = 0
+    for role, obj, U in subjects:
+        Uname = str(U.expr)
+        rr = names.resolve(Uname)
+        if rr is None or defs.T[rr[1]].dim != defs.T["K"].dim:
+            rec.violation(f"C08:alias:result-unit-not-temperature:{form}:{role}:{key_f}", f"{u1}{op}{u2} ({form}) -> {role} unit {U}", case)
+            continue
+        ex = expected_alias(u1, u2, xe, ye, op, Uname, eps)
+        if ex is None:
+            rec.note(f"alias-not-judged:{k1}{op}{k2}")
+            continue
+        val, sem, bound, mags = ex
+        if eps > EPS["f8"] and not _fits(mags, 1e-30, 1e30):
+            rec.count("alias-discarded-float32-range"); continue
+        got = _vals(obj)
+        try:
+            val_b = np.broadcast_to(val, got.shape); bound_b = np.broadcast_to(bound, got.shape)
+        except ValueError:
+            rec.violation(f"C08:alias:result-shape:{form}:{role}:{key_f}", f"{u1}{op}{u2} ({form}) -> {role} shape {got.shape}, operands broadcast to {np.shape(val)}", case)
+            continue
+        if not np.all(np.abs(got - val_b) <= bound_b):
+            rec.violation(f"C08:alias:affine-value:{form}:{role}:" + ("integer-target-is-view-of-other-operand" if int_target_viewed else key_f),
+                          f"{np.asarray(xe).tolist()} {u1} {op} {np.asarray(ye).tolist()} {u2} ({form}, {da},{db}): {role} holds {got.tolist()} {Uname}; affine arithmetic gives {val_b.tolist()} {Uname} ({sem})", case)
+        else:
+            rec.ok(("alias", form, role, u1, op, u2))
+            rec.count(f"alias:{role}-judged"); rec.count(f"alias-dtypes:{da},{db}")
+            judged += 1
+    if judged:
+        rec.count(f"alias-form:{form}")
+    for nm, o, before, ub in bystanders:
+        # an operand that is not the target: not in the statement (C18's subject), recorded only
+        if not _same(before, _vals(o)) or str(o.units) != ub:
+            rec.note(f"alias-bystander-operand-changed:{form}:{nm}")
 
 
 FORMS = {
@@ -153,8 +301,27 @@ def worker(batch, rec):
                         else:
                             rec.ok(("additive", form, u1, op, u2))
         rec.sample({"pair": list(payload[0]), "forms": ["operator", "ufunc", "inplace", "out", "scalar"]})
+    elif kind_ == "alias":
+        pairs, seed, nrand, dtpairs = payload
+        r = core.rng(seed, bid)
+        sets = [((10.0, -40.0, 0.5), (4.0, 36.6, -273.15))]
+        for _ in range(nrand):
+            sets.append((tuple(r.choice([-1, 1]) * 10 ** r.uniform(-3, 5) for _ in range(3)), tuple(r.choice([-1, 1]) * 10 ** r.uniform(-3, 5) for _ in range(3))))
+        isets = [((10, -40, 7), (4, 37, -273))] + [(tuple(r.randint(-999, 999) for _ in range(3)), tuple(r.randint(-999, 999) for _ in range(3))) for _ in range(nrand)]
+        for (u1, u2) in pairs:
+            for op in "+-":
+                for (da, db) in dtpairs:
+                    for (fx, fy), (ix, iy) in zip(sets, isets):
+                        xs = ix if da[0] == "i" else fx
+                        ys = iy if db[0] == "i" else fy
+                        for form, build in c08_alias.plans(unyt, op, u1, u2, xs, ys, da, db):
+                            plan = build()
+                            if plan is None:
+                                continue
+                            judge_alias(rec, form, op, u1, u2, da, db, plan)
+        rec.sample({"alias_pair": list(pairs[0]), "forms": list(c08_alias.FORMS), "dtype_pairs": [list(d) for d in dtpairs], "reading_sets": len(sets)})
     elif kind_ == "convert":
-        IREAD = [0, 10, -40, 37, 451, -273, 100]
+        IREAD =[0, 10, -40, 37, 451, -273, 100]
         for (u1, u2) in payload:
             a1, b1 = aff(u1); a2, b2 = aff(u2)
             for dt in ("f8", "f4", "i8", "i4", "i2"):
@@ -274,3 +441,19 @@ def _ip(a, which):
     else:
         a **= 2
     return a
+
+
+def extra(tier, seed, results):
+    counters = {}
+    for bid, rr in results:
+        for k, v in (rr or {}).get("counters", {}).items():
+            counters[k] = counters.get(k, 0) + v
+    deciding = ["alias:returned-judged", "alias:out-buffer-judged", "alias:refusal-target-intact"] + [f"alias-form:{f}" for f in c08_alias.FORMS] \
+        + [f"alias-dtypes:{a},{b}" for a, b in c08_alias.DTPAIRS[tier]]
+    zero = [k for k in deciding if not counters.get(k)]
+    broken = [bid for bid, rr in results if not rr or rr.get("status") != "ok"]
+    if zero and not broken:
+        raise core.Inconclusive("sub-monitors-evaluated-0-times:" + ",".join(zero))
+    return {"alias_monitor_evaluations": {k: counters.get(k, 0) for k in deciding},
+            "alias_discarded_float32_range": counters.get("alias-discarded-float32-range", 0),
+            "convert_discarded_underflow": counters.get("convert-discarded-underflow", 0)}
